@@ -101,6 +101,105 @@ fn check_program(env: &Environment, prog: &gen::Program, depth: usize, acc: &Acc
     }
 }
 
+/// closure family: a name assigned inside a scope-opening (or merely conditional) construct within a
+/// macro or call-block body, then read after it — whether the body sees the outer value of the name
+/// must depend only on whether the assignment ran and on the scope it ran in.
+fn closure_family() -> Vec<gen::Program> {
+    use gen::Expr as E;
+    let s = |x: &'static str| E::Str(x);
+    let v = |x: &'static str| E::Var(x);
+    let cond_list = || E::Cond(Box::new(E::List(vec![E::Int(1)])), Box::new(v("c")), Box::new(E::List(vec![])));
+    let mut out = vec![];
+    // (assigned name, whether the template sets it before the macro)
+    for (name, outer_set) in [("v", true), ("v", false), ("x", false), ("x", true)] {
+        for assign in 0..4 {
+            let a = |val: &'static str| -> Vec<Node> {
+                match assign {
+                    0 => vec![Node::Set(name, s(val))],
+                    1 => vec![Node::SetBlock(name, vec![Node::Text(val)])],
+                    2 => vec![Node::For { targets: vec![name], iter: E::List(vec![s(val)]), filter: None, recursive: false, body: vec![Node::Out(v(name))], else_: None }],
+                    _ => vec![Node::With(vec![(name, s(val))], vec![Node::Out(v(name))])],
+                }
+            };
+            for wrap in 0..13 {
+                let rd = || Node::Out(v(name));
+                let with_read = |mut b: Vec<Node>| {
+                    b.push(Node::Text("<"));
+                    b.push(rd());
+                    b.push(Node::Text(">"));
+                    b
+                };
+                let w: Vec<Node> = match wrap {
+                    0 => a("i"),
+                    1 => vec![Node::If(v("c"), with_read(a("i")), None)],
+                    2 => vec![Node::If(v("c"), vec![], Some(with_read(a("i"))))],
+                    3 => vec![Node::If(v("c"), with_read(a("i")), Some(with_read(a("j"))))],
+                    4 => vec![Node::If(v("c"), a("i"), Some(vec![Node::Text("("), rd(), Node::Text(")")]))],
+                    5 => vec![Node::For { targets: vec!["q"], iter: cond_list(), filter: None, recursive: false, body: with_read(a("i")), else_: None }],
+                    6 => vec![Node::For { targets: vec!["q"], iter: cond_list(), filter: None, recursive: false, body: vec![], else_: Some(with_read(a("i"))) }],
+                    7 => vec![Node::With(vec![("q", E::Int(1))], with_read(a("i")))],
+                    8 => vec![Node::FilterBlock("upper", with_read(a("i")))],
+                    9 => vec![Node::SetBlock("q", with_read(a("i")))],
+                    10 => vec![Node::AutoEscape(true, with_read(a("i")))],
+                    11 => vec![Node::If(v("c"), vec![Node::If(v("c"), a("i"), None)], None)],
+                    _ => vec![Node::If(E::Not(Box::new(v("c"))), vec![], Some(vec![Node::If(v("c"), a("i"), Some(a("j")))]))],
+                };
+                let mut body = w.clone();
+                body.extend([Node::Text("["), rd(), Node::Text("]")]);
+                for holder in 0..4 {
+                    let mut nodes = vec![];
+                    if outer_set {
+                        nodes.push(Node::Set(name, s("o")));
+                    }
+                    match holder {
+                        // a macro called with both truth values
+                        0 => {
+                            nodes.push(Node::Macro { name: "m", params: vec![("c", None)], body: body.clone() });
+                            nodes.push(Node::Out(E::Call("m", vec![E::Bool(true)], vec![])));
+                            nodes.push(Node::Out(E::Call("m", vec![E::Bool(false)], vec![])));
+                        }
+                        // the outer value changes after the declaration
+                        1 => {
+                            nodes.push(Node::Macro { name: "m", params: vec![("c", None)], body: body.clone() });
+                            nodes.push(Node::Set(name, s("p")));
+                            nodes.push(Node::Out(E::Call("m", vec![E::Bool(false)], vec![])));
+                            nodes.push(Node::Out(E::Call("m", vec![E::Bool(true)], vec![])));
+                        }
+                        // a call block inside a loop, deciding on the iteration
+                        2 => {
+                            nodes.push(Node::Macro { name: "w", params: vec![], body: vec![Node::Out(E::Call("caller", vec![], vec![]))] });
+                            nodes.push(Node::For {
+                                targets: vec!["c"],
+                                iter: E::List(vec![E::Bool(false), E::Bool(true), E::Bool(false)]),
+                                filter: None,
+                                recursive: false,
+                                body: vec![Node::CallBlock { macro_name: "w", args: vec![], body: body.clone() }, Node::Text(";")],
+                                else_: None,
+                            });
+                        }
+                        // a macro declared inside a macro
+                        _ => {
+                            nodes.push(Node::Macro {
+                                name: "o",
+                                params: vec![("c", None)],
+                                body: vec![Node::Macro { name: "m", params: vec![], body: body.clone() }, Node::Out(E::Call("m", vec![], vec![]))],
+                            });
+                            nodes.push(Node::Out(E::Call("o", vec![E::Bool(true)], vec![])));
+                            nodes.push(Node::Out(E::Call("o", vec![E::Bool(false)], vec![])));
+                        }
+                    }
+                    nodes.push(Node::Text("|"));
+                    nodes.push(Node::Out(v(name)));
+                    let mut pieces = vec![];
+                    gen::to_pieces(&nodes, &mut pieces);
+                    out.push(gen::Program { index: out.len() as u64, nodes, pieces });
+                }
+            }
+        }
+    }
+    out
+}
+
 /// loop object fields for every iterated sequence kind, computed directly
 fn loop_object_clause(acc: &Acc) {
     let env = Environment::new();
@@ -175,6 +274,11 @@ pub fn main(args: Args) -> i32 {
         let j = &doc["replay"];
         if j["kind"] == "loop_object" {
             loop_object_clause(&acc);
+        } else if j["depth"] == 0 {
+            let prog = closure_family().swap_remove(j["index"].as_u64().unwrap() as usize);
+            println!("source: {}", prog.source());
+            let mut l = Local::default();
+            check_program(&Environment::new(), &prog, 0, &acc, &mut l);
         } else {
             let g = gen::Gen::new(opts(j["depth"].as_u64().unwrap() as usize));
             let prog = g.program(j["index"].as_u64().unwrap());
@@ -194,6 +298,11 @@ pub fn main(args: Args) -> i32 {
         };
     }
     loop_object_clause(&acc);
+    {
+        let fam = closure_family();
+        acc.count("programs_closure_family", fam.len() as u64);
+        par_items(&fam, &acc, |_, p, l| check_program(&Environment::new(), p, 0, &acc, l));
+    }
     let run = |depth: usize, stride: u64| {
         let o = opts(depth);
         let size = gen::Gen::new(o).size();
@@ -221,7 +330,7 @@ pub fn main(args: Args) -> i32 {
             level: "exploration",
             tier: args.tier,
             seed: args.seed,
-            rule: format!("every program of the depth-1 and depth-2 spaces of G (single template, loop controls){} x 3 contexts rendered by the engine and by the reference interpreter R (independent tree walker over its own value type: scoping per construct, per-iteration loop scope, macro closures with definition-frame values, argument binding with defaults and keywords, call blocks, loop recursion, for-else, loop filters, unpacking, break/continue); oracle: identical output, or both fail; plus the loop object: every field (index, index0, revindex, revindex0, first, last, length, previtem, nextitem) printed in every iteration for 11 iterated sequence kinds x lengths 0..4 against directly computed values. distinct non-trivial = (program, context) pairs on which engine and reference agree on a successful render", if args.tier == Tier::Thorough { " and every 41st program of depth 3" } else { "" }),
+            rule: format!("every program of the depth-1 and depth-2 spaces of G (single template, loop controls){} x 3 contexts rendered by the engine and by the reference interpreter R (independent tree walker over its own value type: scoping per construct, per-iteration loop scope, macro closures with definition-frame values, argument binding with defaults and keywords, call blocks, loop recursion, for-else, loop filters, unpacking, break/continue); oracle: identical output, or both fail; plus the loop object: every field (index, index0, revindex, revindex0, first, last, length, previtem, nextitem) printed in every iteration for 11 iterated sequence kinds x lengths 0..4 against directly computed values; plus the closure family (depth label d0): 4 name/outer-binding cases x 4 assignment forms x 13 enclosing constructs (bare, if/else arms taken and not, for/else with 0 or 1 iterations, with, filter, set block, autoescape, nested ifs) x 4 holders (macro called with both truth values, outer value changed after declaration, call block in a loop, macro in a macro), each reading the name inside and after the construct. distinct non-trivial = (program, context) pairs on which engine and reference agree on a successful render", if args.tier == Tier::Thorough { " and every 41st program of depth 3" } else { "" }),
             exhaustive: true,
             bound: json!({"depth_full": 2}),
             assumptions: vec![
